@@ -223,11 +223,20 @@ def run(F, R):
     R.check(okn, "C05.R3", "might_match:Not=!definitely", "NOT p is not answered by !definitely_matches(p)", mm.loc(), dict(calls=len(nots)))
     # ---------------- R5 logical-type awareness: Parquet stores DECIMAL(p,s) columns as unscaled INT32/INT64 statistics
     R.rule("C05.R5", "K2 co-occurrence", "a function that compares integer statistics with a literal consults the column's logical (Arrow/Parquet) type first, so unscaled decimal statistics are never compared with a plain integer literal")
+    TYPEQ = ("data_type", "logical_type", "converted_type", "column_descr", "scale", "precision", "is_decimal")
     for nm in ("check_comparison", "definite_comparison"):
         g = F.fn(P + "::" + nm)
-        fam = F.family(g.path)
-        consults = any(c.name.rsplit("::", 1)[-1] in ("data_type", "logical_type", "converted_type", "column_descr", "scale", "precision") for h in fam for c in h.calls())
-        R.check(consults, "C05.R5", f"{nm}:logical-type-consulted", "integer statistics are compared with the literal without looking at the column's logical type: a DECIMAL column (unscaled integer statistics) compared with an integer literal is pruned/declared matching at the wrong scale", g.loc(), dict())
+        consult = []
+        for c in g.calls():
+            last = c.name.rsplit("::", 1)[-1]
+            if last in TYPEQ:
+                consult.append(c)
+            elif c.name.startswith(P + "::") and c.name in F.bodies and g.local_ty(place_local(c.dest)) == "bool" and \
+                    any(x.name.rsplit("::", 1)[-1] in TYPEQ for x in F.fam_calls(c.name)):
+                consult.append(c)     # a helper of this module that answers from the column's logical type
+        stats = [c for c in g.calls() if c.name.rsplit("::", 1)[-1] == "statistics"]
+        ok5 = bool(consult) and bool(stats) and all(any(g.dominates(q.bb, st.bb) for q in consult) for st in stats)
+        R.check(ok5, "C05.R5", f"{nm}:logical-type-consulted", "integer statistics are compared with the literal without looking at the column's logical type first: a DECIMAL column (unscaled integer statistics) compared with an integer literal is pruned/declared matching at the wrong scale", g.loc(), dict(type_consults=len(consult), statistics_reads=len(stats)))
     # ---------------- R4
     cmp_blocks = [i for i, j, dst, rv, line in d.stmts() if rv[0] == "bin" and rv[1] in ("Lt", "Le", "Gt", "Ge", "Eq", "Ne") and rv[4] == "f64"]
     cmp_blocks += [c.bb for c in d.calls() if c.name == P + "::definite_range"]
